@@ -31,6 +31,14 @@ var engineAssumptions = []string{
 
 var checks = []Check{
 	{
+		ID: "C14", Title: "only supported commands reach backends; writes only reach masters", Level: "exploration",
+		LevelText: "exhaustive enumeration of the command-name space through the real proxy on a 2-master x 2-replica mini cluster: the full Redis 5.0 command table (with Redis's own write flags), every name in the proxy's tables and odd names, in three letter cases, with 0-4 arguments, under the three read strategies, with the virtual clock stepped so that the time-based replica choice visits every candidate; node logs compared before/after each command at quiescence",
+		Technique: "bounded-exhaustive enumeration of the command space on the real proxy stack under a controlled scheduler",
+		Rule:      "distinct = (name, letter case, argument count, strategy, clock step) combinations issued",
+		Assumptions: append([]string{"Redis 5.0 command table with write flags embedded in the harness (written from the redis-server 5.0 command table)", "mini Redis Cluster node logs"}, engineAssumptions...),
+		Jobs: []Job{{Pkg: "proc/redis", Scenarios: []string{"C14/commands"}, Shards: 12, QuickS: 120, ThoroughS: 300}},
+	},
+	{
 		ID: "C03", Title: "on a stable cluster the proxy behaves like a single Redis server", Level: "model_checking",
 		LevelText: "explicit-state BFS over command programs (depth 3-4 quick, 4-5 thorough; ~40 commands covering every handler over 4 colliding keys; 1 or 2 connections; 5 layouts of 3 slot groups on 1-3 nodes) through the real proxy (sessions, upstream, backend clients) on a virtual network against a mini Redis Cluster; each reply compared with a single-server reference, first delivery checked against slot ownership, zero redirections, final keyspaces equal; plus a sweep of binary/boundary-length keys and values through 7 write/read families",
 		Technique: "explicit-state BFS over operation histories of the real proxy stack under a controlled scheduler (default schedule), reference-model comparison in every state",
